@@ -4,6 +4,7 @@ rejection limits.  Model: PydlVerif/Model/IterFit.lean (on the C08 / C09 / C17 m
 Scope: invvar given, x2 = None, no requiren/oldset, groupbadpix = False (the only case the model has).
 -/
 import PydlVerif.Model.IterFit
+import PydlVerif.Model.IterFit2
 import PydlVerif.Props.C09
 import PydlVerif.Props.C17
 import PydlVerif.Lemmas.IterFit
@@ -833,5 +834,899 @@ example : ([2, 0, 1] : List ℕ).Perm (List.range 3) ∧ ([2, 0, 1] : List ℕ).
     ¬ (([2, 0, 1] : List ℕ).map (fun i => ([1, 2, 1] : List ℚ).getD i 0)).Pairwise (· < ·) ∧
     ([2, 0, 1] : List ℕ) ≠ ([1, 0, 2] : List ℕ).map (fun i => ([2, 0, 1] : List ℕ).getD i 0) := by
   refine ⟨by decide, by decide, by decide, by decide, by decide, by decide, by decide⟩
+
+/-! ## the full `iterfit` (second extension round): requiren, oldset, groupbadpix, the branch "at most one good point left" -/
+section full
+variable {α : Type} [Scalar α]
+
+/-- how the full model calls `djs_reject`: with `maxrej=None` the group keywords are not read - it IS C17's `djsReject` -/
+theorem rejectCall_eq (sqrt : α → α) (p : Params α) (gbp : Bool) (yw yfit : List α) (mask : List Bool) (iw : List α) :
+    rejectCall sqrt p gbp yw yfit mask iw =
+      Reject.djsReject sqrt (rejectOpts p) yw (some yfit) (some mask) (some mask) iw := rfl
+
+theorem iterBodyFull_gbp (K : Kernels α) (p : Params α) (rq : Option ℕ) (gbp : Bool) (xw yw iw : List α) (s : St α) :
+    iterBodyFull K p rq gbp xw yw iw s = iterBodyFull K p rq false xw yw iw s := rfl
+
+theorem iterLoopFull_gbp (K : Kernels α) (p : Params α) (rq : Option ℕ) (gbp : Bool) (xw yw iw : List α) :
+    ∀ (fuel : ℕ) (s : St α) (cz : Bool),
+      iterLoopFull K p rq gbp xw yw iw fuel s cz = iterLoopFull K p rq false xw yw iw fuel s cz := by
+  intro fuel
+  induction fuel with
+  | zero => intro s cz; rfl
+  | succ f ih =>
+    intro s cz
+    unfold iterLoopFull
+    rw [iterBodyFull_gbp]
+    simp only [ih]
+
+/-- **groupbadpix_irrelevant**: the result of the full `iterfit` does not depend on `groupbadpix` (1-D data; `maxrej` cannot be
+passed: C17's maxrej block is never entered) -/
+theorem groupbadpix_irrelevant (K : Kernels α) (r32 : α → α) (p : Params α) (o : FullOpts α) (b : Bool) (xs ys ivs : List α)
+    (perm : List ℕ) :
+    iterfitFull K r32 p { o with groupbadpix := b } xs ys ivs perm = iterfitFull K r32 p o xs ys ivs perm := by
+  unfold iterfitFull iterCoreFull
+  simp only [iterLoopFull_gbp K p o.requiren b, iterLoopFull_gbp K p o.requiren o.groupbadpix]
+
+/-- what one pass of the full loop does to the mask: nothing, or one `djs_reject(inmask = outmask = mask)` -/
+theorem iterBodyFull_spec (K : Kernels α) (p : Params α) (rq : Option ℕ) (gbp : Bool) (xw yw iw : List α) (s s' : St α) (z : Bool)
+    (h : iterBodyFull K p rq gbp xw yw iw s = .ok (.done s', z)) :
+    s'.maskwork = s.maskwork ∨
+    ∃ yf, Reject.djsReject K.sqrt (rejectOpts p) yw (some yf) (some s.maskwork) (some s.maskwork) iw = .ok (s'.maskwork, s'.qdone) := by
+  unfold iterBodyFull at h
+  simp only [bind, Except.bind, pure, Except.pure, rejectCall_eq] at h
+  repeat' split at h
+  all_goals first
+    | (cases h; done)
+    | skip
+  all_goals cases h
+  all_goals first
+    | exact Or.inl rfl
+    | exact Or.inr ⟨_, by assumption⟩
+
+/-- **masks only shrink** (one pass of the full loop: requiren and the degenerate branch included) -/
+theorem iterBodyFull_mask_le (K : Kernels α) (p : Params α) (rq : Option ℕ) (gbp : Bool) (xw yw iw : List α) (s s' : St α) (z : Bool)
+    (h : iterBodyFull K p rq gbp xw yw iw s = .ok (.done s', z)) (hlen : s.maskwork.length = yw.length) :
+    s'.maskwork.length = yw.length ∧ ∀ i : ℕ, s'.maskwork[i]? = some true → s.maskwork[i]? = some true := by
+  rcases iterBodyFull_spec K p rq gbp xw yw iw s s' z h with hmk | ⟨yf, hr⟩
+  · rw [hmk]; exact ⟨hlen, fun i hm => hm⟩
+  · exact ⟨djsReject_length _ _ _ _ _ _ _ _ _ hr, fun i hm => djsReject_le _ _ _ _ _ _ _ _ _ hr i hm⟩
+
+/-- **masks only shrink** (the whole full loop) -/
+theorem iterLoopFull_mask_le (K : Kernels α) (p : Params α) (rq : Option ℕ) (gbp : Bool) (xw yw iw : List α) :
+    ∀ (fuel : ℕ) (s s' : St α) (cz z : Bool), iterLoopFull K p rq gbp xw yw iw fuel s cz = .ok (.done s', z) →
+      s.maskwork.length = yw.length →
+      s'.maskwork.length = yw.length ∧ ∀ i : ℕ, s'.maskwork[i]? = some true → s.maskwork[i]? = some true := by
+  intro fuel
+  induction fuel with
+  | zero => intro s s' cz z h hlen; unfold iterLoopFull at h; cases h; exact ⟨hlen, fun i hm => hm⟩
+  | succ f ih =>
+    intro s s' cz z h hlen
+    unfold iterLoopFull at h
+    by_cases hc : (s.error ≠ 0 ∨ s.qdone = false) ∧ s.iiter ≤ p.maxiter
+    · rw [if_pos hc] at h
+      cases hb : iterBodyFull K p rq gbp xw yw iw s with
+      | error e => rw [hb] at h; cases h
+      | ok o =>
+        rw [hb] at h
+        obtain ⟨o1, z1⟩ := o
+        cases o1 with
+        | failed b => cases h
+        | done s1 =>
+          obtain ⟨hl1, h1⟩ := iterBodyFull_mask_le K p rq gbp xw yw iw s s1 z1 hb hlen
+          obtain ⟨hl2, h2⟩ := ih s1 s' z1 z h hl1
+          exact ⟨hl2, fun i hm => h1 i (h2 i hm)⟩
+    · rw [if_neg hc] at h; cases h; exact ⟨hlen, fun i hm => hm⟩
+
+/-- the final working mask of the full core is below the initial one, `invvar > 0` (whatever `requiren`, `oldset`, `groupbadpix`) -/
+theorem iterCoreFull_mask (K : Kernels α) (r32 : α → α) (p : Params α) (o : FullOpts α) (xw yw iw : List α) (sset : BS α) (cz : Bool)
+    (m : List Bool) (hl : iw.length = yw.length) (h : iterCoreFull K r32 p o xw yw iw = .ok (sset, cz, some m)) :
+    m.length = yw.length ∧ ∀ j : ℕ, m[j]? = some true → (iw.map (fun v => decide (0 < v)))[j]? = some true := by
+  unfold iterCoreFull at h
+  simp only [bind, Except.bind, pure, Except.pure] at h
+  repeat' split at h
+  all_goals first
+    | (cases h; done)
+    | skip
+  rename_i s cz' hloop
+  cases h
+  exact iterLoopFull_mask_le K p _ _ xw yw iw _ _ _ _ _ hloop (by simp [hl])
+
+/-- without `requiren` a pass of the full loop is the pass of `iterBody` wherever `iterBody` is defined (it refuses the degenerate branch) -/
+theorem iterBodyFull_none (K : Kernels α) (p : Params α) (gbp : Bool) (xw yw iw : List α) (s : St α) (o : Outcome α)
+    (h : iterBody K p xw yw iw s = .ok o) : iterBodyFull K p none gbp xw yw iw s = .ok (o, false) := by
+  unfold iterBody at h
+  unfold iterBodyFull
+  simp only [rejectCall_eq]
+  by_cases hd : countTrue s.maskwork ≤ 1 ∨ (!(s.sset.mask.any id)) = true
+  · rw [if_pos hd] at h; cases h
+  rw [if_neg hd] at h
+  rw [if_neg hd]
+  simp only [bind, Except.bind, pure, Except.pure] at h ⊢
+  cases hf : fit K s.sset xw yw (maskedWeights iw s.maskwork) (List.range xw.length) with
+  | error e => rw [hf] at h; cases h
+  | ok out =>
+    rw [hf] at h
+    simp only [] at h ⊢
+    by_cases h2 : out.status = -2
+    · rw [if_pos h2] at h ⊢; cases h; rfl
+    rw [if_neg h2] at h ⊢
+    by_cases h0 : out.status = 0
+    · rw [if_pos h0] at h ⊢
+      cases hr : Reject.djsReject K.sqrt (rejectOpts p) yw (some out.yfit) (some s.maskwork) (some s.maskwork) iw with
+      | error e => rw [hr] at h; cases h
+      | ok mq => rw [hr] at h; simp only [] at h ⊢; cases h; rfl
+    · rw [if_neg h0] at h ⊢; cases h; rfl
+
+theorem iterLoopFull_none (K : Kernels α) (p : Params α) (gbp : Bool) (xw yw iw : List α) :
+    ∀ (fuel : ℕ) (s : St α) (o : Outcome α), iterLoop K p xw yw iw fuel s = .ok o →
+      iterLoopFull K p none gbp xw yw iw fuel s false = .ok (o, false) := by
+  intro fuel
+  induction fuel with
+  | zero => intro s o h; rw [iterLoop_zero] at h; cases h; rfl
+  | succ f ih =>
+    intro s o h
+    rw [iterLoop_succ] at h
+    unfold iterLoopFull
+    by_cases hc : (s.error ≠ 0 ∨ s.qdone = false) ∧ s.iiter ≤ p.maxiter
+    · rw [if_pos hc] at h ⊢
+      cases hb : iterBody K p xw yw iw s with
+      | error e => rw [hb] at h; cases h
+      | ok o1 =>
+        rw [hb] at h
+        rw [iterBodyFull_none K p gbp xw yw iw s o1 hb]
+        cases o1 with
+        | failed b => cases h; rfl
+        | done s1 => exact ih s1 o h
+    · rw [if_neg hc] at h ⊢; cases h; rfl
+
+theorem iterCoreFull_none (K : Kernels α) (r32 : α → α) (p : Params α) (gbp : Bool) (xw yw iw : List α) (r : BS α × Option (List Bool))
+    (h : iterCore K r32 p xw yw iw = .ok r) :
+    iterCoreFull K r32 p { groupbadpix := gbp } xw yw iw = .ok (r.1, false, r.2) := by
+  unfold iterCore at h
+  unfold iterCoreFull initSset
+  simp only [bind, Except.bind, pure, Except.pure] at h ⊢
+  by_cases hany : (!((iw.map (fun v => decide (0 < v))).any id)) = true
+  · rw [if_pos hany] at h; cases h
+  rw [if_neg hany] at h ⊢
+  cases hk : mkKnots r32 ((((xw.zip (iw.map (fun v => decide (0 < v)))).filter (fun xm => xm.2)).map (fun xm => xm.1))) p.nord p.opts with
+  | error e => rw [hk] at h; cases h
+  | ok knots =>
+    rw [hk] at h
+    simp only [] at h ⊢
+    by_cases hc : countTrue (iw.map (fun v => decide (0 < v))) < p.nord
+    · rw [if_pos hc] at h; cases h; simp [hc]
+    rw [if_neg hc] at h
+    simp only [hc, decide_false, Bool.false_eq_true, if_false]
+    cases hl : iterLoop K p xw yw iw (p.maxiter + 1)
+        { sset := { nord := p.nord, breakpoints := knots.toArray, mask := Array.replicate knots.length true,
+                    coeff := Array.replicate (knots.length - p.nord) 0 },
+          maskwork := iw.map (fun v => decide (0 < v)), yfit := List.replicate xw.length 0, error := 0, qdone := false, iiter := 0 } with
+    | error e => rw [hl] at h; cases h
+    | ok o =>
+      rw [hl] at h
+      rw [iterLoopFull_none K p gbp xw yw iw _ _ o hl]
+      cases o with
+      | failed b => cases h; rfl
+      | done s1 => cases h; rfl
+
+/-- **iterfitFull_eq_iterfit**: without `requiren` and `oldset` (any `groupbadpix`) the full model returns what `iterfit` returns,
+wherever `iterfit` answers (it refuses the branch "at most one good point left"), with an array of coefficients
+(`cz = false`): every theorem about `iterfit` is a theorem about the full function on these calls -/
+theorem iterfitFull_eq_iterfit (K : Kernels α) (r32 : α → α) (p : Params α) (gbp : Bool) (xs ys ivs : List α) (perm : List ℕ)
+    (r : BS α × List Bool) (h : iterfit K r32 p xs ys ivs perm = .ok r) :
+    iterfitFull K r32 p { groupbadpix := gbp } xs ys ivs perm = .ok ⟨r.1, false, r.2⟩ := by
+  unfold iterfit at h
+  unfold iterfitFull
+  simp only [bind, Except.bind, pure, Except.pure] at h ⊢
+  by_cases h1 : ys.length ≠ xs.length
+  · rw [if_pos h1] at h; cases h
+  rw [if_neg h1] at h ⊢
+  by_cases h2 : ivs.length ≠ xs.length
+  · rw [if_pos h2] at h; cases h
+  rw [if_neg h2] at h ⊢
+  by_cases h3 : xs.length ≤ 1
+  · rw [if_pos h3] at h; cases h
+  rw [if_neg h3] at h ⊢
+  cases hc : iterCore K r32 p (perm.map (fun i => xs.getD i 0)) (perm.map (fun i => ys.getD i 0)) (perm.map (fun i => ivs.getD i 0)) with
+  | error e => rw [hc] at h; cases h
+  | ok v =>
+    rw [hc] at h
+    rw [iterCoreFull_none K r32 p gbp _ _ _ v hc]
+    obtain ⟨b, m⟩ := v
+    cases m with
+    | none => cases h; rfl
+    | some mw => cases h; rfl
+
+/-- **nonpositive_never_used_full**: for the full call (any `requiren`, `oldset`, `groupbadpix`; the degenerate branch included):
+unless `iterfit` gives up (all-True mask), the returned mask has the data length, is in the caller's order and is False at
+every point whose `invvar` is not positive -/
+theorem nonpositive_never_used_full (K : Kernels α) (r32 : α → α) (p : Params α) (o : FullOpts α) (xs ys ivs : List α) (perm : List ℕ)
+    (out : FullOut α) (hperm : perm.Perm (List.range xs.length))
+    (h : iterfitFull K r32 p o xs ys ivs perm = .ok out) :
+    out.outmask = List.replicate xs.length true ∨
+    (out.outmask.length = xs.length ∧ ∀ i, i < xs.length → ¬ ((0 : α) < ivs.getD i 0) → out.outmask[i]? = some false) := by
+  unfold iterfitFull at h
+  simp only [bind, Except.bind, pure, Except.pure] at h
+  repeat' split at h
+  all_goals first
+    | (cases h; done)
+    | skip
+  · cases h; exact Or.inl rfl
+  · rename_i hn _ v hcore _ maskwork hv
+    cases h
+    right
+    obtain ⟨sset, cz, m⟩ := v
+    simp only [] at hv
+    have hcore' : iterCoreFull K r32 p o (List.map (fun i => xs.getD i 0) perm) (List.map (fun i => ys.getD i 0) perm)
+        (List.map (fun i => ivs.getD i 0) perm) = .ok (sset, cz, some maskwork) := by
+      rw [hcore, ← hv]
+    have hplen : perm.length = xs.length := by rw [hperm.length_eq, List.length_range]
+    obtain ⟨hml, hmle⟩ := iterCoreFull_mask K r32 p o _ _ _ sset cz maskwork (by simp) hcore'
+    simp only [List.length_map] at hml
+    have hperm' : perm.Perm (List.range maskwork.length) := by rw [hml, hplen]; exact hperm
+    refine ⟨by rw [(unsort_bool perm maskwork hperm' 0 (by omega)).1, hml, hplen], ?_⟩
+    intro i hi hnp
+    have hmem : i ∈ perm := (hperm.mem_iff).2 (List.mem_range.2 hi)
+    obtain ⟨j, hj, hji⟩ := List.mem_iff_getElem.1 hmem
+    have hu := (unsort_bool perm maskwork hperm' j hj).2
+    rw [hji] at hu
+    rw [hu]
+    have hjm : j < maskwork.length := by omega
+    rw [List.getElem?_eq_getElem hjm]
+    cases hb : maskwork[j] with
+    | false => rfl
+    | true =>
+      exfalso
+      have := hmle j (by rw [List.getElem?_eq_getElem hjm, hb])
+      simp only [List.getElem?_map, List.getElem?_eq_getElem hj, Option.map_some, hji] at this
+      exact hnp (by simpa using this)
+
+/-! ### `oldset`: the breakpoints and the order of the reused object are kept -/
+
+theorem fit_keeps (K : Kernels α) (b : BS α) (xs ys ws : List α) (perm : List ℕ) (out : FitOut α)
+    (h : fit K b xs ys ws perm = .ok out) : out.obj.breakpoints = b.breakpoints ∧ out.obj.nord = b.nord := by
+  unfold fit at h
+  simp only [bind, Except.bind, pure, Except.pure] at h
+  repeat' split at h
+  all_goals first
+    | (cases h; done)
+    | skip
+  all_goals (cases h; exact ⟨rfl, rfl⟩)
+
+theorem iterBodyFull_keeps (K : Kernels α) (p : Params α) (rq : Option ℕ) (gbp : Bool) (xw yw iw : List α) (s : St α)
+    (o : Outcome α) (z : Bool) (h : iterBodyFull K p rq gbp xw yw iw s = .ok (o, z)) :
+    match o with
+    | .done s' => s'.sset.breakpoints = s.sset.breakpoints ∧ s'.sset.nord = s.sset.nord
+    | .failed b => b.breakpoints = s.sset.breakpoints ∧ b.nord = s.sset.nord := by
+  unfold iterBodyFull at h
+  simp only [bind, Except.bind, pure, Except.pure, rejectCall_eq] at h
+  by_cases hd : countTrue s.maskwork ≤ 1 ∨ (!(s.sset.mask.any id)) = true
+  · rw [if_pos hd] at h
+    repeat' split at h
+    all_goals first
+      | (cases h; done)
+      | skip
+    all_goals (cases h; exact ⟨rfl, rfl⟩)
+  · rw [if_neg hd] at h
+    cases rq with
+    | none =>
+      simp only [] at h
+      cases hf : fit K s.sset xw yw (maskedWeights iw s.maskwork) (List.range xw.length) with
+      | error e => rw [hf] at h; cases h
+      | ok out =>
+        rw [hf] at h
+        have hk := fit_keeps K _ _ _ _ _ out hf
+        simp only [] at h
+        repeat' split at h
+        all_goals first
+          | (cases h; done)
+          | skip
+        all_goals (cases h; exact hk)
+    | some r =>
+      simp only [] at h
+      cases hw : requirenWalk s.sset xw iw s.maskwork r with
+      | error e => rw [hw] at h; cases h
+      | ok m =>
+        rw [hw] at h
+        simp only [] at h
+        cases hf : fit K { s.sset with mask := m } xw yw (maskedWeights iw s.maskwork) (List.range xw.length) with
+        | error e => rw [hf] at h; cases h
+        | ok out =>
+          rw [hf] at h
+          have hk := fit_keeps K _ _ _ _ _ out hf
+          simp only [] at h
+          repeat' split at h
+          all_goals first
+            | (cases h; done)
+            | skip
+          all_goals (cases h; exact hk)
+
+theorem iterLoopFull_keeps (K : Kernels α) (p : Params α) (rq : Option ℕ) (gbp : Bool) (xw yw iw : List α) :
+    ∀ (fuel : ℕ) (s : St α) (cz : Bool) (o : Outcome α) (z : Bool), iterLoopFull K p rq gbp xw yw iw fuel s cz = .ok (o, z) →
+      match o with
+      | .done s' => s'.sset.breakpoints = s.sset.breakpoints ∧ s'.sset.nord = s.sset.nord
+      | .failed b => b.breakpoints = s.sset.breakpoints ∧ b.nord = s.sset.nord := by
+  intro fuel
+  induction fuel with
+  | zero => intro s cz o z h; unfold iterLoopFull at h; cases h; exact ⟨rfl, rfl⟩
+  | succ f ih =>
+    intro s cz o z h
+    unfold iterLoopFull at h
+    by_cases hc : (s.error ≠ 0 ∨ s.qdone = false) ∧ s.iiter ≤ p.maxiter
+    · rw [if_pos hc] at h
+      cases hb : iterBodyFull K p rq gbp xw yw iw s with
+      | error e => rw [hb] at h; cases h
+      | ok o1z =>
+        rw [hb] at h
+        obtain ⟨o1, z1⟩ := o1z
+        have hk := iterBodyFull_keeps K p rq gbp xw yw iw s o1 z1 hb
+        cases o1 with
+        | failed b => cases h; exact hk
+        | done s1 =>
+          have h2 := ih s1 z1 o z h
+          simp only [] at hk
+          cases o with
+          | done s' => simp only [] at h2 ⊢; exact ⟨h2.1.trans hk.1, h2.2.trans hk.2⟩
+          | failed b => simp only [] at h2 ⊢; exact ⟨h2.1.trans hk.1, h2.2.trans hk.2⟩
+    · rw [if_neg hc] at h; cases h; exact ⟨rfl, rfl⟩
+
+theorem iterCoreFull_oldset (K : Kernels α) (r32 : α → α) (p : Params α) (o : FullOpts α) (b : BS α) (xw yw iw : List α)
+    (r : BS α × Bool × Option (List Bool)) (ho : o.oldset = some b) (h : iterCoreFull K r32 p o xw yw iw = .ok r) :
+    r.1.breakpoints = b.breakpoints ∧ r.1.nord = b.nord := by
+  unfold iterCoreFull initSset at h
+  rw [ho] at h
+  simp only [bind, Except.bind, pure, Except.pure, Bool.false_eq_true, if_false] at h
+  repeat' split at h
+  all_goals first
+    | (cases h; done)
+    | skip
+  all_goals
+    have hk := iterLoopFull_keeps K p _ _ _ _ _ _ _ _ _ _ (by assumption)
+    cases h
+    simpa [resetOld] using hk
+
+/-- **oldset_reuses_breakpoints**: `iterfit(..., oldset=b)` returns an object with the breakpoints and the order of `b`, whatever the
+data, the other options and the course of the loop (dropped breakpoints are marked in `mask`, never removed) -/
+theorem oldset_reuses_breakpoints (K : Kernels α) (r32 : α → α) (p : Params α) (o : FullOpts α) (b : BS α) (xs ys ivs : List α)
+    (perm : List ℕ) (out : FullOut α) (ho : o.oldset = some b)
+    (h : iterfitFull K r32 p o xs ys ivs perm = .ok out) :
+    out.sset.breakpoints = b.breakpoints ∧ out.sset.nord = b.nord := by
+  unfold iterfitFull at h
+  simp only [bind, Except.bind, pure, Except.pure] at h
+  repeat' split at h
+  all_goals first
+    | (cases h; done)
+    | skip
+  all_goals
+    have hk := iterCoreFull_oldset K r32 p o b _ _ _ _ ho (by assumption)
+    cases h
+    exact hk
+
+/-! ### `requiren` only drops breakpoints -/
+
+theorem setFalse_le (m : Array Bool) (k i : ℕ) (h : (m.setIfInBounds k false)[i]? = some true) : m[i]? = some true := by
+  rw [Array.getElem?_setIfInBounds] at h
+  split at h
+  · split at h <;> cases h
+  · exact h
+
+/-- **requirenWalk_le**: the `requiren` block keeps the length of the breakpoint mask and only switches entries off -/
+theorem requirenWalk_le (b : BS α) (xw iw : List α) (mw : List Bool) (r : ℕ) (m : Array Bool)
+    (h : requirenWalk b xw iw mw r = .ok m) :
+    m.size = b.mask.size ∧ ∀ i : ℕ, m[i]? = some true → b.mask[i]? = some true := by
+  unfold requirenWalk at h
+  simp only [] at h
+  split at h
+  · cases h
+  split at h
+  · cases h
+  -- invariant of the fold
+  have inv : ∀ (l : List ℕ) (f : Option (ℕ × ℕ × Array Bool) → ℕ → Option (ℕ × ℕ × Array Bool)) (s0 : Option (ℕ × ℕ × Array Bool)),
+      (∀ s k t, f s k = some t → ∃ t0, s = some t0 ∧ (t.2.2 = t0.2.2 ∨ ∃ j, t.2.2 = t0.2.2.setIfInBounds j false)) →
+      ∀ t, l.foldl f s0 = some t → ∃ t0, s0 = some t0 ∧ t.2.2.size = t0.2.2.size ∧ ∀ i : ℕ, t.2.2[i]? = some true → t0.2.2[i]? = some true := by
+    intro l f
+    induction l with
+    | nil => intro s0 _ t ht; exact ⟨t, ht, rfl, fun i hi => hi⟩
+    | cons a l ih =>
+      intro s0 hf t ht
+      simp only [List.foldl_cons] at ht
+      obtain ⟨t1, ht1, hs1, hle1⟩ := ih (f s0 a) hf t ht
+      obtain ⟨t0, ht0, hcase⟩ := hf s0 a t1 ht1
+      refine ⟨t0, ht0, ?_, ?_⟩
+      · rcases hcase with e | ⟨j, e⟩
+        · rw [hs1, e]
+        · rw [hs1, e, Array.size_setIfInBounds]
+      · intro i hi
+        have := hle1 i hi
+        rcases hcase with e | ⟨j, e⟩
+        · rw [e] at this; exact this
+        · rw [e] at this; exact setFalse_le _ _ _ this
+  split at h
+  · cases h
+  · rename_i rr hr
+    cases h
+    obtain ⟨t0, ht0, hs, hle⟩ := inv _ _ _ (by
+      intro s k t hst
+      cases s with
+      | none => simp at hst
+      | some t0 =>
+        obtain ⟨i, ct, mm⟩ := t0
+        simp only [] at hst
+        split at hst
+        · cases hst
+        · split at hst
+          · cases hst; exact ⟨_, rfl, Or.inl rfl⟩
+          · cases hst; exact ⟨_, rfl, Or.inr ⟨_, rfl⟩⟩) rr hr
+    cases ht0
+    exact ⟨hs, hle⟩
+
+end full
+
+/-! ### order independence of the full call (distinct abscissae) -/
+section fullField
+variable {K : Type} [Field K] [LinearOrder K] [IsStrictOrderedRing K] [FloorRing K]
+
+local notation "iterfitFullK" => @iterfitFull _ (fieldScalar _)
+local notation "iterCoreFullK" => @iterCoreFull _ (fieldScalar _)
+local notation "ZK" => (@OfNat.ofNat _ 0 (@Scalar.instOfNat _ (fieldScalar _) 0))
+
+/-- what the full `iterfit` returns from the result of the sorted core -/
+def finishFull (n : ℕ) (perm : List ℕ) : BS K × Bool × Option (List Bool) → FullOut K
+  | (sset, cz, none) => ⟨sset, cz, List.replicate n true⟩
+  | (sset, cz, some mw) => ⟨sset, cz, unsort perm mw⟩
+
+theorem iterfitFull_eq (Kn : Kernels K) (r32 : K → K) (p : Params K) (o : FullOpts K) (xs ys ivs : List K) (perm : List ℕ) :
+    iterfitFullK Kn r32 p o xs ys ivs perm =
+      if ys.length ≠ xs.length then valueError else
+      if ivs.length ≠ xs.length then valueError else
+      if xs.length ≤ 1 then .error "Unmodelled" else
+      (iterCoreFullK Kn r32 p o (perm.map (fun i => xs.getD i ZK)) (perm.map (fun i => ys.getD i ZK))
+        (perm.map (fun i => ivs.getD i ZK))).map (finishFull xs.length perm) := by
+  unfold iterfitFull
+  simp only [bind, Except.bind, pure, Except.pure]
+  split
+  · rfl
+  · split
+    · rfl
+    · split
+      · rfl
+      · cases iterCoreFullK Kn r32 p o _ _ _ with
+        | error e => rfl
+        | ok v =>
+          obtain ⟨sset, cz, m⟩ := v
+          cases m <;> rfl
+
+/-- **iterfitFull_perm**: order independence of the FULL call - any `requiren`, `oldset`, `groupbadpix`, the degenerate branch
+included.  For distinct abscissae and ANY sorting permutations `perm`, `perm'` that `argsort` may return for the data and for
+the permuted data: permuting `(x, y, invvar)` by `σ` leaves the spline object (and whether its coefficients are the int 0)
+unchanged and permutes the returned mask identically (errors included).  (The `requiren` walk runs over the sorted work
+arrays, which coincide.  With TIED abscissae the walk is NOT invariant - its guard `i < nx-1` leaves out the last sorted point,
+and which of two tied points is last is up to argsort - so there is no `_ties` version for `requiren`.) -/
+theorem iterfitFull_perm (Kn : Kernels K) (r32 : K → K) (p : Params K) (o : FullOpts K) (xs ys ivs : List K) (σ perm perm' : List ℕ)
+    (hy : ys.length = xs.length) (hiv : ivs.length = xs.length)
+    (hσ : σ.Perm (List.range xs.length)) (hperm : perm.Perm (List.range xs.length))
+    (hperm' : perm'.Perm (List.range xs.length))
+    (hs : (perm.map (fun i => xs.getD i 0)).Pairwise (· < ·))
+    (hs' : (perm'.map (fun i => (σ.map (fun i => xs.getD i 0)).getD i 0)).Pairwise (· ≤ ·)) :
+    iterfitFullK Kn r32 p o (σ.map (fun i => xs.getD i 0)) (σ.map (fun i => ys.getD i 0)) (σ.map (fun i => ivs.getD i 0)) perm' =
+      (iterfitFullK Kn r32 p o xs ys ivs perm).map
+        (fun r => ⟨r.sset, r.cz, σ.map (fun i => r.outmask.getD i true)⟩) := by
+  have hkey := perm_key xs σ perm perm' hσ hperm hperm' hs hs'
+  have hσl : σ.length = xs.length := by rw [hσ.length_eq, List.length_range]
+  have hpl : perm.length = xs.length := by rw [hperm.length_eq, List.length_range]
+  have hpl' : perm'.length = xs.length := by rw [hperm'.length_eq, List.length_range]
+  have hσm : ∀ i ∈ σ, i < xs.length := fun i hi => List.mem_range.1 ((hσ.mem_iff).1 hi)
+  have hpm : ∀ i ∈ perm', i < σ.length := fun i hi => by rw [hσl]; exact List.mem_range.1 ((hperm'.mem_iff).1 hi)
+  rw [iterfitFull_eq, iterfitFull_eq]
+  simp only [List.length_map, hσl, hy, hiv, ne_eq, not_true_eq_false, if_false]
+  by_cases hn : xs.length ≤ 1
+  · rw [if_pos hn, if_pos hn]; rfl
+  rw [if_neg hn, if_neg hn]
+  rw [work_eq xs 0 _ σ perm perm' hσl hσm hpm hkey,
+    work_eq ys 0 _ σ perm perm' (by rw [hσl, hy]) (by rw [hy]; exact hσm) hpm hkey,
+    work_eq ivs 0 _ σ perm perm' (by rw [hσl, hiv]) (by rw [hiv]; exact hσm) hpm hkey]
+  cases hc : iterCoreFullK Kn r32 p o _ _ _ with
+  | error e => rfl
+  | ok v =>
+    obtain ⟨sset, cz, m⟩ := v
+    cases m with
+    | none =>
+      simp only [Except.map, finishFull]
+      congr 2
+      rw [← hσl]
+      apply List.ext_getElem (by simp)
+      intro i h1 h2
+      simp only [List.getElem_replicate, List.getElem_map, List.getD_eq_getElem?_getD, List.getElem?_replicate]
+      split <;> rfl
+    | some mw =>
+      simp only [Except.map, finishFull]
+      congr 2
+      obtain ⟨hml, _⟩ := @iterCoreFull_mask K (fieldScalar K) Kn r32 p o _ _ _ sset cz mw (by simp) hc
+      simp only [List.length_map] at hml
+      have hpermw : perm.Perm (List.range mw.length) := by rw [hml, hpl]; exact hperm
+      have hpermw' : perm'.Perm (List.range mw.length) := by rw [hml, hpl]; exact hperm'
+      apply List.ext_getElem?
+      intro a
+      by_cases ha : a < xs.length
+      · have hmem : a ∈ perm' := (hperm'.mem_iff).2 (List.mem_range.2 ha)
+        obtain ⟨j, hj, hja⟩ := List.mem_iff_getElem.1 hmem
+        have h1 := (unsort_bool perm' mw hpermw' j hj).2
+        rw [hja] at h1
+        have hjp : j < perm.length := by omega
+        have h2 := (unsort_bool perm mw hpermw j hjp).2
+        have hσa : σ[a]'(by omega) = perm[j] := by
+          have : perm[j] = (perm'.map (fun i => σ.getD i 0))[j]'(by rw [List.length_map]; exact hj) := by
+            congr 1
+          rw [this, List.getElem_map, hja, List.getD_eq_getElem?_getD, List.getElem?_eq_getElem (by omega)]
+          rfl
+        rw [h1, List.getElem?_map, List.getElem?_eq_getElem (by omega : a < σ.length), Option.map_some, hσa,
+          List.getD_eq_getElem?_getD, h2]
+        have hjm : j < mw.length := by omega
+        rw [List.getElem?_eq_getElem hjm]; rfl
+      · rw [List.getElem?_eq_none (by rw [(unsort_bool perm' mw hpermw' 0 (by omega)).1, hml, hpl]; omega),
+          List.getElem?_eq_none (by rw [List.length_map, hσl]; omega)]
+
+/-- **maxrej_would_not_matter** (connection to C17 `maxrej_never_limits`): `iterfit` cannot hand `maxrej` to `djs_reject`
+(its `**kwargs` go to the `bspline` constructor, which refuses the keyword - observed by the harness on every run); and even a
+rejection call WITH any `maxrej` / `groupdim` / `groupsize` / `groupbadpix` on iterfit's 1-D work arrays, when it returns,
+returns exactly the result of the call the model makes: the maxrej block never limits the rejection -/
+theorem maxrej_would_not_matter (sqrt : K → K) (body : ℕ → List ℕ → ℕ → List K → Except String (List K)) (p : Params K)
+    (g : Reject.MaxrejOpts) (gbp : Bool) (yw yfit : List K) (mask : List Bool) (iw : List K) (r : List Bool × Bool)
+    (h : @Reject.djsRejectMaxrej K (fieldScalar K) sqrt body (rejectOpts p) g [yw.length] yw (some yfit)
+      (some mask) (some mask) iw = .ok r) :
+    @rejectCall K (fieldScalar K) sqrt p gbp yw yfit mask iw = .ok r :=
+  C17.maxrej_never_limits sqrt body _ g _ _ yw _ _ _ iw r h
+
+/-- **iterfitFull_perm_ties_partial** (transfer of `iterfit_perm_ties` through `iterfitFull_eq_iterfit`): TIED abscissae allowed, any sorting
+permutations, any `groupbadpix`, no `requiren` / `oldset`: whenever the first model answers on the data (i.e. the loop never reaches
+the branch "at most one good point left"), the full call on the data permuted by `σ` returns the same object, an array of
+coefficients, and the mask permuted identically.
+FULL statement (not proved): the conclusion of `iterfitFull_perm` with `Pairwise (· ≤ ·)` for every `o` with `o.requiren = none`, i.e.
+also with `oldset` and when the loop reaches the degenerate branch.  MISSING: the equivariance lemmas of Lemmas/IterFit.lean
+(`iterBody_equiv`, `iterLoop_equiv`, `iterCore_equiv`) redone for `iterBodyFull` with the extra loop invariant `yfit∘τ = yfit` (the
+degenerate branch rejects against the previous `yfit`).  With `requiren` the full statement is false for ties. -/
+theorem iterfitFull_perm_ties_partial (Kn : Kernels K) (r32 : K → K) (p : Params K) (gbp : Bool) (xs ys ivs : List K) (σ perm perm' : List ℕ)
+    (hy : ys.length = xs.length) (hiv : ivs.length = xs.length)
+    (hσ : σ.Perm (List.range xs.length)) (hperm : perm.Perm (List.range xs.length))
+    (hperm' : perm'.Perm (List.range xs.length))
+    (hs : (perm.map (fun i => xs.getD i 0)).Pairwise (· ≤ ·))
+    (hs' : (perm'.map (fun i => (σ.map (fun i => xs.getD i 0)).getD i 0)).Pairwise (· ≤ ·))
+    (r : BS K × List Bool) (hr : @iterfit K (fieldScalar K) Kn r32 p xs ys ivs perm = .ok r) :
+    iterfitFullK Kn r32 p { groupbadpix := gbp } xs ys ivs perm = .ok ⟨r.1, false, r.2⟩ ∧
+    iterfitFullK Kn r32 p { groupbadpix := gbp } (σ.map (fun i => xs.getD i 0)) (σ.map (fun i => ys.getD i 0))
+        (σ.map (fun i => ivs.getD i 0)) perm' = .ok ⟨r.1, false, σ.map (fun i => r.2.getD i true)⟩ := by
+  have h := iterfit_perm_ties Kn r32 p xs ys ivs σ perm perm' hy hiv hσ hperm hperm' hs hs'
+  rw [hr] at h
+  exact ⟨@iterfitFull_eq_iterfit K (fieldScalar K) Kn r32 p gbp xs ys ivs perm r hr,
+    @iterfitFull_eq_iterfit K (fieldScalar K) Kn r32 p gbp _ _ _ perm' _ h⟩
+
+end fullField
+
+/-! ## `iterfit` with the second variable `x2` (2-D fit through C09's `fit2`; Model/IterFit2.lean) -/
+section x2loop
+variable {α : Type} [Scalar α]
+open PydlVerif.BSplineFit2
+
+theorem iterBody2_spec (K : Kernels α) (p : Params α) (gbp : Bool) (xw x2w yw iw : List α) (s s' : St2 α) (z : Bool)
+    (h : iterBody2 K p gbp xw x2w yw iw s = .ok (.done s', z)) :
+    s'.maskwork = s.maskwork ∨
+    ∃ yf, Reject.djsReject K.sqrt (rejectOpts p) yw (some yf) (some s.maskwork) (some s.maskwork) iw = .ok (s'.maskwork, s'.qdone) := by
+  unfold iterBody2 at h
+  simp only [bind, Except.bind, pure, Except.pure, rejectCall_eq] at h
+  repeat' split at h
+  all_goals first
+    | (cases h; done)
+    | skip
+  all_goals cases h
+  all_goals first
+    | exact Or.inl rfl
+    | exact Or.inr ⟨_, by assumption⟩
+
+theorem iterBody2_mask_le (K : Kernels α) (p : Params α) (gbp : Bool) (xw x2w yw iw : List α) (s s' : St2 α) (z : Bool)
+    (h : iterBody2 K p gbp xw x2w yw iw s = .ok (.done s', z)) (hlen : s.maskwork.length = yw.length) :
+    s'.maskwork.length = yw.length ∧ ∀ i : ℕ, s'.maskwork[i]? = some true → s.maskwork[i]? = some true := by
+  rcases iterBody2_spec K p gbp xw x2w yw iw s s' z h with hmk | ⟨yf, hr⟩
+  · rw [hmk]; exact ⟨hlen, fun i hm => hm⟩
+  · exact ⟨djsReject_length _ _ _ _ _ _ _ _ _ hr, fun i hm => djsReject_le _ _ _ _ _ _ _ _ _ hr i hm⟩
+
+/-- **masks only shrink** in the loop of the 2-D `iterfit` -/
+theorem iterLoop2_mask_le (K : Kernels α) (p : Params α) (gbp : Bool) (xw x2w yw iw : List α) :
+    ∀ (fuel : ℕ) (s s' : St2 α) (cz z : Bool), iterLoop2 K p gbp xw x2w yw iw fuel s cz = .ok (.done s', z) →
+      s.maskwork.length = yw.length →
+      s'.maskwork.length = yw.length ∧ ∀ i : ℕ, s'.maskwork[i]? = some true → s.maskwork[i]? = some true := by
+  intro fuel
+  induction fuel with
+  | zero => intro s s' cz z h hlen; unfold iterLoop2 at h; cases h; exact ⟨hlen, fun i hm => hm⟩
+  | succ f ih =>
+    intro s s' cz z h hlen
+    unfold iterLoop2 at h
+    by_cases hc : (s.error ≠ 0 ∨ s.qdone = false) ∧ s.iiter ≤ p.maxiter
+    · rw [if_pos hc] at h
+      cases hb : iterBody2 K p gbp xw x2w yw iw s with
+      | error e => rw [hb] at h; cases h
+      | ok o =>
+        rw [hb] at h
+        obtain ⟨o1, z1⟩ := o
+        cases o1 with
+        | failed b => cases h
+        | done s1 =>
+          obtain ⟨hl1, h1⟩ := iterBody2_mask_le K p gbp xw x2w yw iw s s1 z1 hb hlen
+          obtain ⟨hl2, h2⟩ := ih s1 s' z1 z h hl1
+          exact ⟨hl2, fun i hm => h1 i (h2 i hm)⟩
+    · rw [if_neg hc] at h; cases h; exact ⟨hlen, fun i hm => hm⟩
+
+theorem iterCore2_mask (K : Kernels α) (r32 : α → α) (p : Params α) (npoly : ℕ) (gbp : Bool) (xmin xmax : α) (xw x2w yw iw : List α)
+    (sset : BS2 α) (cz : Bool) (m : List Bool) (hl : iw.length = yw.length)
+    (h : iterCore2 K r32 p npoly gbp xmin xmax xw x2w yw iw = .ok (sset, cz, some m)) :
+    m.length = yw.length ∧ ∀ j : ℕ, m[j]? = some true → (iw.map (fun v => decide (0 < v)))[j]? = some true := by
+  unfold iterCore2 at h
+  simp only [bind, Except.bind, pure, Except.pure] at h
+  repeat' split at h
+  all_goals first
+    | (cases h; done)
+    | skip
+  rename_i s cz' hloop
+  cases h
+  exact iterLoop2_mask_le K p _ xw x2w yw iw _ _ _ _ _ hloop (by simp [hl])
+
+/-- **nonpositive_never_used_x2**: the 2-D `iterfit` too flags every point with non-positive `invvar` False (caller's order),
+unless it gives up (all-True mask) -/
+theorem nonpositive_never_used_x2 (K : Kernels α) (r32 : α → α) (p : Params α) (npoly : ℕ) (gbp : Bool) (xs ys ivs x2s : List α)
+    (perm : List ℕ) (out : Out2 α) (hperm : perm.Perm (List.range xs.length))
+    (h : iterfit2 K r32 p npoly gbp xs ys ivs x2s perm = .ok out) :
+    out.outmask = List.replicate xs.length true ∨
+    (out.outmask.length = xs.length ∧ ∀ i, i < xs.length → ¬ ((0 : α) < ivs.getD i 0) → out.outmask[i]? = some false) := by
+  unfold iterfit2 at h
+  simp only [bind, Except.bind, pure, Except.pure] at h
+  repeat' split at h
+  all_goals first
+    | (cases h; done)
+    | skip
+  · cases h; exact Or.inl rfl
+  · rename_i hn _ v hcore _ maskwork hv
+    cases h
+    right
+    obtain ⟨sset, cz, m⟩ := v
+    simp only [] at hv
+    have hcore' : iterCore2 K r32 p npoly gbp (lmin x2s) (lmax x2s) (List.map (fun i => xs.getD i 0) perm)
+        (List.map (fun i => x2s.getD i 0) perm) (List.map (fun i => ys.getD i 0) perm)
+        (List.map (fun i => ivs.getD i 0) perm) = .ok (sset, cz, some maskwork) := by
+      rw [hcore, ← hv]
+    have hplen : perm.length = xs.length := by rw [hperm.length_eq, List.length_range]
+    obtain ⟨hml, hmle⟩ := iterCore2_mask K r32 p npoly gbp _ _ _ _ _ _ sset cz maskwork (by simp) hcore'
+    simp only [List.length_map] at hml
+    have hperm' : perm.Perm (List.range maskwork.length) := by rw [hml, hplen]; exact hperm
+    refine ⟨by rw [(unsort_bool perm maskwork hperm' 0 (by omega)).1, hml, hplen], ?_⟩
+    intro i hi hnp
+    have hmem : i ∈ perm := (hperm.mem_iff).2 (List.mem_range.2 hi)
+    obtain ⟨j, hj, hji⟩ := List.mem_iff_getElem.1 hmem
+    have hu := (unsort_bool perm maskwork hperm' j hj).2
+    rw [hji] at hu
+    rw [hu]
+    have hjm : j < maskwork.length := by omega
+    rw [List.getElem?_eq_getElem hjm]
+    cases hb : maskwork[j] with
+    | false => rfl
+    | true =>
+      exfalso
+      have := hmle j (by rw [List.getElem?_eq_getElem hjm, hb])
+      simp only [List.getElem?_map, List.getElem?_eq_getElem hj, Option.map_some, hji] at this
+      exact hnp (by simpa using this)
+
+end x2loop
+
+section x2field
+variable {K : Type} [Field K] [LinearOrder K] [IsStrictOrderedRing K] [FloorRing K]
+open PydlVerif.BSplineFit2
+
+local notation "iterfit2K" => @iterfit2 _ (fieldScalar _)
+local notation "iterCore2K" => @iterCore2 _ (fieldScalar _)
+local notation "lminK" => @lmin _ (fieldScalar _)
+local notation "lmaxK" => @lmax _ (fieldScalar _)
+local notation "ZK" => (@OfNat.ofNat _ 0 (@Scalar.instOfNat _ (fieldScalar _) 0))
+
+theorem foldl_min_spec (dec : ∀ a b : K, Decidable (a < b)) (l : List K) :
+    ∀ a : K, ((l.foldl (fun m v => @ite _ (v < m) (dec v m) v m) a = a ∨ l.foldl (fun m v => @ite _ (v < m) (dec v m) v m) a ∈ l) ∧
+      l.foldl (fun m v => @ite _ (v < m) (dec v m) v m) a ≤ a ∧ ∀ v ∈ l, l.foldl (fun m v => @ite _ (v < m) (dec v m) v m) a ≤ v) := by
+  induction l with
+  | nil => intro a; exact ⟨Or.inl rfl, le_refl _, fun v hv => by cases hv⟩
+  | cons h t ih =>
+    intro a
+    simp only [List.foldl_cons]
+    obtain ⟨h1, h2, h3⟩ := ih (@ite _ (h < a) (dec h a) h a)
+    by_cases hlt : h < a
+    · simp only [if_pos hlt] at h1 h2 h3 ⊢
+      refine ⟨Or.inr ?_, le_trans h2 (le_of_lt hlt), ?_⟩
+      · rcases h1 with e | e
+        · rw [e]; exact List.mem_cons_self
+        · exact List.mem_cons_of_mem _ e
+      · intro v hv
+        rcases List.mem_cons.1 hv with e | e
+        · rw [e]; exact h2
+        · exact h3 v e
+    · simp only [if_neg hlt] at h1 h2 h3 ⊢
+      refine ⟨?_, h2, ?_⟩
+      · rcases h1 with e | e
+        · exact Or.inl e
+        · exact Or.inr (List.mem_cons_of_mem _ e)
+      · intro v hv
+        rcases List.mem_cons.1 hv with e | e
+        · rw [e]; exact le_trans h2 (not_lt.1 hlt)
+        · exact h3 v e
+
+theorem foldl_max_spec (dec : ∀ a b : K, Decidable (a < b)) (l : List K) :
+    ∀ a : K, ((l.foldl (fun m v => @ite _ (m < v) (dec m v) v m) a = a ∨ l.foldl (fun m v => @ite _ (m < v) (dec m v) v m) a ∈ l) ∧
+      a ≤ l.foldl (fun m v => @ite _ (m < v) (dec m v) v m) a ∧ ∀ v ∈ l, v ≤ l.foldl (fun m v => @ite _ (m < v) (dec m v) v m) a) := by
+  induction l with
+  | nil => intro a; exact ⟨Or.inl rfl, le_refl _, fun v hv => by cases hv⟩
+  | cons h t ih =>
+    intro a
+    simp only [List.foldl_cons]
+    obtain ⟨h1, h2, h3⟩ := ih (@ite _ (a < h) (dec a h) h a)
+    by_cases hlt : a < h
+    · simp only [if_pos hlt] at h1 h2 h3 ⊢
+      refine ⟨Or.inr ?_, le_trans (le_of_lt hlt) h2, ?_⟩
+      · rcases h1 with e | e
+        · rw [e]; exact List.mem_cons_self
+        · exact List.mem_cons_of_mem _ e
+      · intro v hv
+        rcases List.mem_cons.1 hv with e | e
+        · rw [e]; exact h2
+        · exact h3 v e
+    · simp only [if_neg hlt] at h1 h2 h3 ⊢
+      refine ⟨?_, h2, ?_⟩
+      · rcases h1 with e | e
+        · exact Or.inl e
+        · exact Or.inr (List.mem_cons_of_mem _ e)
+      · intro v hv
+        rcases List.mem_cons.1 hv with e | e
+        · rw [e]; exact le_trans (not_lt.1 hlt) h2
+        · exact h3 v e
+
+/-- `x2.min()` is a least element of the array -/
+theorem lmin_spec (l : List K) (hne : l ≠ []) : lminK l ∈ l ∧ ∀ v ∈ l, lminK l ≤ v := by
+  cases l with
+  | nil => exact absurd rfl hne
+  | cons h t =>
+    obtain ⟨h1, h2, h3⟩ := foldl_min_spec (fun a b => (fieldScalar K).decLt a b) (h :: t) h
+    refine ⟨?_, h3⟩
+    rcases h1 with e | e
+    · have : lminK (h :: t) = h := e
+      rw [this]; exact List.mem_cons_self
+    · exact e
+
+theorem lmax_spec (l : List K) (hne : l ≠ []) : lmaxK l ∈ l ∧ ∀ v ∈ l, v ≤ lmaxK l := by
+  cases l with
+  | nil => exact absurd rfl hne
+  | cons h t =>
+    obtain ⟨h1, h2, h3⟩ := foldl_max_spec (fun a b => (fieldScalar K).decLt a b) (h :: t) h
+    refine ⟨?_, h3⟩
+    rcases h1 with e | e
+    · have : lmaxK (h :: t) = h := e
+      rw [this]; exact List.mem_cons_self
+    · exact e
+
+/-- `x2.min()` / `x2.max()` do not depend on the order of the array -/
+theorem lmin_perm (l l' : List K) (hp : l'.Perm l) : lminK l' = lminK l := by
+  by_cases hne : l = []
+  · subst hne; rw [hp.eq_nil]
+  have hne' : l' ≠ [] := fun e => hne (by rw [e] at hp; exact hp.symm.eq_nil)
+  obtain ⟨m1, m2⟩ := lmin_spec l hne
+  obtain ⟨m1', m2'⟩ := lmin_spec l' hne'
+  exact le_antisymm (m2' _ ((hp.mem_iff).2 m1)) (m2 _ ((hp.mem_iff).1 m1'))
+
+theorem lmax_perm (l l' : List K) (hp : l'.Perm l) : lmaxK l' = lmaxK l := by
+  by_cases hne : l = []
+  · subst hne; rw [hp.eq_nil]
+  have hne' : l' ≠ [] := fun e => hne (by rw [e] at hp; exact hp.symm.eq_nil)
+  obtain ⟨m1, m2⟩ := lmax_spec l hne
+  obtain ⟨m1', m2'⟩ := lmax_spec l' hne'
+  exact le_antisymm (m2 _ ((hp.mem_iff).1 m1')) (m2' _ ((hp.mem_iff).2 m1))
+
+/-- what the 2-D `iterfit` returns from the result of the sorted core -/
+def finish2 (n : ℕ) (perm : List ℕ) : BS2 K × Bool × Option (List Bool) → Out2 K
+  | (sset, cz, none) => ⟨sset, cz, List.replicate n true⟩
+  | (sset, cz, some mw) => ⟨sset, cz, unsort perm mw⟩
+
+theorem iterfit2_eq (Kn : Kernels K) (r32 : K → K) (p : Params K) (npoly : ℕ) (gbp : Bool) (xs ys ivs x2s : List K) (perm : List ℕ) :
+    iterfit2K Kn r32 p npoly gbp xs ys ivs x2s perm =
+      if ys.length ≠ xs.length then valueError else
+      if ivs.length ≠ xs.length then valueError else
+      if x2s.length ≠ xs.length then valueError else
+      if xs.length ≤ 1 then .error "Unmodelled" else
+      (iterCore2K Kn r32 p npoly gbp (lminK x2s) (lmaxK x2s) (perm.map (fun i => xs.getD i ZK)) (perm.map (fun i => x2s.getD i ZK))
+        (perm.map (fun i => ys.getD i ZK)) (perm.map (fun i => ivs.getD i ZK))).map (finish2 xs.length perm) := by
+  unfold iterfit2
+  simp only [bind, Except.bind, pure, Except.pure]
+  split
+  · rfl
+  · split
+    · rfl
+    · split
+      · rfl
+      · split
+        · rfl
+        · cases iterCore2K Kn r32 p npoly gbp _ _ _ _ _ _ with
+          | error e => rfl
+          | ok v =>
+            obtain ⟨sset, cz, m⟩ := v
+            cases m <;> rfl
+
+/-- **iterfit2_perm**: order independence of the 2-D `iterfit`.  For distinct abscissae and ANY sorting permutations `perm`,
+`perm'` that `argsort` may return for the data and for the permuted data: permuting `(x, y, invvar, x2)` TOGETHER by `σ`
+leaves the 2-D spline object (breakpoints, mask, the `(npoly, nc)` coefficients, `xmin`, `xmax`) unchanged and permutes the
+returned mask identically (errors included): the work arrays coincide and `x2.min()`, `x2.max()` do not see the order -/
+theorem iterfit2_perm (Kn : Kernels K) (r32 : K → K) (p : Params K) (npoly : ℕ) (gbp : Bool) (xs ys ivs x2s : List K)
+    (σ perm perm' : List ℕ)
+    (hy : ys.length = xs.length) (hiv : ivs.length = xs.length) (hx2 : x2s.length = xs.length)
+    (hσ : σ.Perm (List.range xs.length)) (hperm : perm.Perm (List.range xs.length))
+    (hperm' : perm'.Perm (List.range xs.length))
+    (hs : (perm.map (fun i => xs.getD i 0)).Pairwise (· < ·))
+    (hs' : (perm'.map (fun i => (σ.map (fun i => xs.getD i 0)).getD i 0)).Pairwise (· ≤ ·)) :
+    iterfit2K Kn r32 p npoly gbp (σ.map (fun i => xs.getD i 0)) (σ.map (fun i => ys.getD i 0)) (σ.map (fun i => ivs.getD i 0))
+        (σ.map (fun i => x2s.getD i 0)) perm' =
+      (iterfit2K Kn r32 p npoly gbp xs ys ivs x2s perm).map
+        (fun r => ⟨r.sset, r.cz, σ.map (fun i => r.outmask.getD i true)⟩) := by
+  have hkey := perm_key xs σ perm perm' hσ hperm hperm' hs hs'
+  have hσl : σ.length = xs.length := by rw [hσ.length_eq, List.length_range]
+  have hpl : perm.length = xs.length := by rw [hperm.length_eq, List.length_range]
+  have hpl' : perm'.length = xs.length := by rw [hperm'.length_eq, List.length_range]
+  have hσm : ∀ i ∈ σ, i < xs.length := fun i hi => List.mem_range.1 ((hσ.mem_iff).1 hi)
+  have hpm : ∀ i ∈ perm', i < σ.length := fun i hi => by rw [hσl]; exact List.mem_range.1 ((hperm'.mem_iff).1 hi)
+  have hmin : lminK (σ.map (fun i => x2s.getD i 0)) = lminK x2s :=
+    lmin_perm _ _ (map_getD_perm x2s 0 σ (by rw [hx2]; exact hσ))
+  have hmax : lmaxK (σ.map (fun i => x2s.getD i 0)) = lmaxK x2s :=
+    lmax_perm _ _ (map_getD_perm x2s 0 σ (by rw [hx2]; exact hσ))
+  rw [iterfit2_eq, iterfit2_eq, hmin, hmax]
+  simp only [List.length_map, hσl, hy, hiv, hx2, ne_eq, not_true_eq_false, if_false]
+  by_cases hn : xs.length ≤ 1
+  · rw [if_pos hn, if_pos hn]; rfl
+  rw [if_neg hn, if_neg hn]
+  rw [work_eq xs 0 _ σ perm perm' hσl hσm hpm hkey,
+    work_eq ys 0 _ σ perm perm' (by rw [hσl, hy]) (by rw [hy]; exact hσm) hpm hkey,
+    work_eq ivs 0 _ σ perm perm' (by rw [hσl, hiv]) (by rw [hiv]; exact hσm) hpm hkey,
+    work_eq x2s 0 _ σ perm perm' (by rw [hσl, hx2]) (by rw [hx2]; exact hσm) hpm hkey]
+  cases hc : iterCore2K Kn r32 p npoly gbp _ _ _ _ _ _ with
+  | error e => rfl
+  | ok v =>
+    obtain ⟨sset, cz, m⟩ := v
+    cases m with
+    | none =>
+      simp only [Except.map, finish2]
+      congr 2
+      rw [← hσl]
+      apply List.ext_getElem (by simp)
+      intro i h1 h2
+      simp only [List.getElem_replicate, List.getElem_map, List.getD_eq_getElem?_getD, List.getElem?_replicate]
+      split <;> rfl
+    | some mw =>
+      simp only [Except.map, finish2]
+      congr 2
+      obtain ⟨hml, _⟩ := @iterCore2_mask K (fieldScalar K) Kn r32 p npoly gbp _ _ _ _ _ _ sset cz mw (by simp) hc
+      simp only [List.length_map] at hml
+      have hpermw : perm.Perm (List.range mw.length) := by rw [hml, hpl]; exact hperm
+      have hpermw' : perm'.Perm (List.range mw.length) := by rw [hml, hpl]; exact hperm'
+      apply List.ext_getElem?
+      intro a
+      by_cases ha : a < xs.length
+      · have hmem : a ∈ perm' := (hperm'.mem_iff).2 (List.mem_range.2 ha)
+        obtain ⟨j, hj, hja⟩ := List.mem_iff_getElem.1 hmem
+        have h1 := (unsort_bool perm' mw hpermw' j hj).2
+        rw [hja] at h1
+        have hjp : j < perm.length := by omega
+        have h2 := (unsort_bool perm mw hpermw j hjp).2
+        have hσa : σ[a]'(by omega) = perm[j] := by
+          have : perm[j] = (perm'.map (fun i => σ.getD i 0))[j]'(by rw [List.length_map]; exact hj) := by
+            congr 1
+          rw [this, List.getElem_map, hja, List.getD_eq_getElem?_getD, List.getElem?_eq_getElem (by omega)]
+          rfl
+        rw [h1, List.getElem?_map, List.getElem?_eq_getElem (by omega : a < σ.length), Option.map_some, hσa,
+          List.getD_eq_getElem?_getD, h2]
+        have hjm : j < mw.length := by omega
+        rw [List.getElem?_eq_getElem hjm]; rfl
+      · rw [List.getElem?_eq_none (by rw [(unsort_bool perm' mw hpermw' 0 (by omega)).1, hml, hpl]; omega),
+          List.getElem?_eq_none (by rw [List.length_map, hσl]; omega)]
+
+end x2field
 
 end PydlVerif.C10
